@@ -14,7 +14,7 @@ from ..extract import Canon
 from ..values import VAdt, VInt
 from ..interp import lin_of, OPTION
 from ..spec import itu, enums
-from .common import flatten, unwrap_message, strip_wrappers, leaf_table, last
+from .common import check_derived_impls, flatten, unwrap_message, strip_wrappers, leaf_table, last
 from .c04 import infer_shape
 
 
@@ -153,25 +153,10 @@ def run(ctx, chk):
                         chk.ob(ok, "C12/reverse/%s/%r" % (c3, bl), "u8::from(ShipType::parse(c)) is %r for c in %r [%s], expected c" % (bl, c3, cfg),
                                sample={"reverse": "u8::from(ShipType)", "codes": repr(c3), "result": repr(bl)})
                 chk.ob(IntSet.range(1, 99).subset_of(covered), "C12/reverse/coverage", "reverse ship-type map not evaluated on all of 1..=99 [%s]" % cfg)
-    # "distinct codes give distinct values" is observed through `==`: the comparison impls of the
-    # enumeration types must be the derived, structural ones (a hand-written `eq` that looks at the
-    # discriminant only makes Reserved(75) == Reserved(78))
+    # "distinct codes give distinct values" is observed through `==` (and copies through `clone`):
+    # a hand-written `eq` that looks at the discriminant only makes Reserved(75) == Reserved(78)
     want = set(enums.FIELD_ENUM.values())
-    for cfg in cfgs:
-        f = ctx.facts(cfg)
-        nimpl = 0
-        for b in f.bodies.values():
-            tr = (b.get("impl_trait") or "")
-            if not (tr.endswith("cmp::PartialEq") or tr.endswith("cmp::Eq") or tr.endswith("hash::Hash") or tr.endswith("cmp::PartialOrd") or tr.endswith("cmp::Ord")):
-                continue
-            selfn = (b.get("impl_self") or "").split("<")[0].rsplit("::", 1)[-1]
-            if selfn not in want:
-                continue
-            nimpl += 1
-            chk.ob(bool(b.get("derived")), "C12/manual-eq/%s/%s" % (selfn, tr.rsplit("::", 1)[-1]),
-                   "reason=unanalysable: %s for %s [%s] is hand-written (%s): whether distinct codes compare as distinct values is not decided for a user-defined comparison" % (tr.rsplit("::", 1)[-1], selfn, cfg, b["def"]),
-                   sample={"enum": selfn, "impl": tr.rsplit("::", 1)[-1], "derived": True})
-        chk.ob(nimpl >= 8, "C12/eq-impls-floor/%d" % nimpl, "only %d comparison impls of the enumeration types found [%s]" % (nimpl, cfg))
+    check_derived_impls(ctx, chk, "C12", cfgs, lambda short, full: short in want, 8, "whether distinct codes are distinct values")
     chk.cov["configs"] = cfgs
     chk.cov["programs"] = len(cfgs)
     chk.cov["enum_fields_checked"] = nfields
